@@ -9,6 +9,17 @@ import z3
 FEAS_TIMEOUT_MS = 3000
 
 
+def _sig(t, depth=3):
+    """shape of a z3 term to a small depth (operators and sorts; names of uninterpreted symbols only by sort and arity, since fresh names may
+    carry run-dependent counters): enough to notice that a replay meets a different branch condition"""
+    k = t.decl().kind()
+    if k == z3.Z3_OP_UNINTERPRETED:
+        return ("u", t.sort().name(), t.num_args())
+    if depth == 0 or t.num_args() == 0:
+        return (k, str(t) if t.num_args() == 0 and not z3.is_const(t) or z3.is_int_value(t) or z3.is_rational_value(t) else t.sort().name())
+    return (k,) + tuple(_sig(c, depth - 1) for c in t.children()[:6])
+
+
 class PathAbort(Exception):
     """current path is infeasible"""
 
@@ -20,8 +31,9 @@ class Unsupported(Exception):
 class Ctx:
     cur = None
 
-    def __init__(self, decisions=()):
+    def __init__(self, decisions=(), sigs=()):
         self.decisions = list(decisions)  # prefix to replay
+        self.sigs = list(sigs)  # shape signatures of the branch conditions of the prefix (replay divergence check)
         self.trace = []  # decisions taken in this run
         self.pc = []  # path condition (z3 Bools)
         self.oblig = []  # (pc snapshot, formula, label, kind)
@@ -57,11 +69,18 @@ class Ctx:
         if t == z3.unsat and f == z3.unsat:
             raise PathAbort()
         i = len(self.trace)
+        sig = _sig(cond)
         if i < len(self.decisions):
             d = self.decisions[i]
+            # the replayed prefix must meet the same free branches in the same order: code whose branch order changes from run to run (iteration
+            # over a hash-ordered set of objects, ...) would silently skip parts of the decision tree
+            if i < len(self.sigs) and self.sigs[i] != sig:
+                raise Unsupported(f"replay diverged at decision {i}: the code met a different branch condition than on the first visit (nondeterministic branch order)")
         else:
             d = True
             self.decisions.append(True)
+        if i >= len(self.sigs):
+            self.sigs.append(sig)
         self.trace.append(d)
         self.pc.append(cond if d else z3.Not(cond))
         return d
@@ -104,23 +123,27 @@ def _from_shim(e):
 
 def explore(fn, max_paths=20000):
     """run fn() under all feasible paths; yields (ctx, ("ok", result) | ("exc", exception))"""
-    stack = [[]]
+    stack = [([], [])]
     n = 0
     while stack:
-        dec = stack.pop()
-        ctx = Ctx(dec)
+        dec, sigs = stack.pop()
+        ctx = Ctx(dec, sigs)
         Ctx.cur = ctx
         try:
             res = ("ok", fn())
         except PathAbort:
-            continue
+            res = None  # the siblings of the decisions taken before the abort are still explored
         except Unsupported as e:
             res = ("unsupported", e)
         except Exception as e:  # pylint: disable=broad-except
             res = ("unsupported", Unsupported(f"{type(e).__name__}: {e}")) if _from_shim(e) else ("exc", e)
+        if res is not None and res[0] != "unsupported" and len(ctx.trace) < len(dec):
+            res = ("unsupported", Unsupported(f"replay diverged: only {len(ctx.trace)} of the {len(dec)} recorded decisions were met again (nondeterministic branch order)"))
         for i in range(len(dec), len(ctx.decisions)):
             if ctx.decisions[i] is True:
-                stack.append(ctx.decisions[:i] + [False])
+                stack.append((ctx.decisions[:i] + [False], ctx.sigs[: i + 1]))
+        if res is None:
+            continue
         n += 1
         if n > max_paths:
             raise Unsupported(f"more than {max_paths} paths")
